@@ -120,7 +120,8 @@ class EconomicsAddOnsCalculate(Contract):
         return {"len": Len(cum) == Len(cf), "counter": s.i == i,
                 "running": running_sum(cum, cf, 0, i),
                 "witness": Or(pb == 0.0, And(j >= 1, j < i, X.turn(cum, j))),
-                "none_so_far": Implies(ForAll(1, i, lambda k: Not(X.turn(cum, k))), pb == 0.0)}
+                "none_so_far": Implies(ForAll(1, i, lambda k: Not(X.turn(cum, k))), pb == 0.0),
+                "zero_only_if_none_so_far": Implies(pb == 0.0, ForAll(1, i, lambda k: Not(X.turn(cum, k))))}
 
     loop_invariants = {
         "self.AddOnCashFlow.value,self.ProjectCashFlow.value": lambda s, i, W: EconomicsAddOnsCalculate._inv_insert(s, i, W),
@@ -192,6 +193,8 @@ class EconomicsAddOnsCalculate(Contract):
             pb != 0.0, And(jpb >= 1, jpb < n, self.turn(ac, jpb)))
         out["c04_addon_payback_not_available_when_never_turning_positive"] = Implies(
             ForAll(1, n, lambda j: Not(self.turn(ac, j))), pb == 0.0)
+        out["c04_addon_payback_not_available_only_when_never_turning_positive"] = Implies(
+            pb == 0.0, ForAll(1, n, lambda j: Not(self.turn(ac, j))))
         # ---- C11: 'an add-on with zero cost and zero gains changes nothing' (add-on totals enter additively)
         zero = And(*[T[t] == 0.0 for t in self.TOTALS])
         out["c11_zero_addon_leaves_energy_series_unchanged"] = Implies(zero, ForAll(0, L, lambda j: And(
